@@ -997,8 +997,10 @@ impl<'a> GeneratorState<'a> {
                 Ok(expr_type)
             }
             Expr::Neg(v) => self.generate_neg(v, pos, high_byte),
+            // The high byte of a truth value is 0 (its operand was evaluated for the low byte)
+            Expr::Not(_) if high_byte => Ok(ExprType::Immediate(0)),
             Expr::Not(v) => self.generate_not(v, pos),
-            Expr::BNot(v) => self.generate_bnot(v, pos),
+            Expr::BNot(v) => self.generate_bnot(v, pos, high_byte),
             Expr::Deref(v) => self.generate_deref(v, pos),
             Expr::Addr(v) => self.generate_addr(v, pos),
             Expr::Sizeof(v) => self.generate_sizeof(v, pos),
